@@ -27,7 +27,7 @@ def showAbs : Option AbsVal → String
   | some (.tab cs) => "table[" ++ ", ".intercalate (cs.map showVec) ++ "]"
 
 /-- translate one recorded step into the model alphabet; values of new / written objects come from the observation -/
-def toOp (m : Json) (obs : Array (Option AbsVal)) : P HOp := do
+def toOp1 (m : Json) (obs : Array (Option AbsVal)) : P HOp := do
   let kind ← strF m "m"
   let slotVal (i : Nat) : Option AbsVal := (obs[i]?).join
   match kind with
@@ -53,6 +53,26 @@ def toOp (m : Json) (obs : Array (Option AbsVal)) : P HOp := do
   | "noop" => return .noop
   | _ => .error s!"unknown model op {kind}"
 
+/-- scratch handle used to express "replace a column by a freshly built vector" with the model's own operations -/
+def tmpSlot : Nat := 1000
+
+/-- a recorded step as a short sequence of model operations -/
+def toOps (m : Json) (obs : Array (Option AbsVal)) : P (List HOp) := do
+  let kind ← strF m "m"
+  if kind == "setattr_val" then
+    -- `t.<accessor> = [values]`: a new vector is built from the list, then stored as the column (a copy of it)
+    match ← asObs (← field m "val") with
+    | some (.vec v) => return [.derive tmpSlot (.vec v), .setAttr (← natF m "t") (← natF m "j") tmpSlot, .drop tmpSlot]
+    | _ => .error "setattr_val: value is not a vector"
+  else
+    return [← toOp1 m obs]
+
+/-- single-operation form (kept for the handlers that import it) -/
+def toOp (m : Json) (obs : Array (Option AbsVal)) : P HOp := do
+  match ← toOps m obs with
+  | [op] => return op
+  | _ => .error "compound step where a single operation was expected"
+
 /-- run the model along the history; after every step every handle must show what the model says -/
 def handle (_fam : String) (c _impl : Json) : P Json := do
   let steps ← asArr (← field c "steps")
@@ -61,8 +81,8 @@ def handle (_fam : String) (c _impl : Json) : P Json := do
   for st in steps do
     let obsJ ← asArr (← field st "obs")
     let obs := (← obsJ.mapM asObs).toArray
-    let op ← toOp (← field st "m") obs
-    h := Heap.step (fun _ => 0) h op
+    let ops ← toOps (← field st "m") obs
+    h := ops.foldl (Heap.step (fun _ => 0)) h
     for i in [0:obs.size] do
       let expect := h.view i
       let got := obs[i]!
